@@ -43,3 +43,21 @@ Theorem C13_smm_restore {pw : PW} {N : Num} (s : smm) :
   smm_slice s = tsort (buf (smm_window s)) ->
   smm_restore (smm_window s) = Some s.
 Proof. exact (smm_restore_roundtrip s). Qed.
+
+(** end to end for concrete method states: the snapshot of EVERY state reachable from an accepted constructor, after any stream,
+    decodes to that very state (derived struct codecs composed with the validating Window codec; any round-tripping float
+    encoding, any carrier and width) - so the restored instance continues bit-for-bit like the original *)
+From Yata Require Import Serde.Snapshots Spec.Hist.
+Open Scope Z_scope.
+Theorem C13_sma_snapshot_any_state {pw : PW} {N : Num} (pmax_ge : 2 <= pmax) (cf : codec F) n (v : F) xs : 1 <= n <= pmax - 1 ->
+  exists s0, sma_new n v = Ok s0 /\
+    let s := steps sma_next s0 xs in pdec (sma_pcodec pmax_ge cf) (penc (sma_pcodec pmax_ge cf) s) = Some s.
+Proof. exact (sma_snapshot_roundtrip pmax_ge cf n v xs). Qed.
+Theorem C13_wma_snapshot_any_state {pw : PW} {N : Num} (pmax_ge : 2 <= pmax) (cf : codec F) n (v : F) xs : 1 <= n <= pmax - 1 ->
+  exists s0, wma_new n v = Ok s0 /\
+    let s := steps wma_next s0 xs in pdec (wma_pcodec pmax_ge cf) (penc (wma_pcodec pmax_ge cf) s) = Some s.
+Proof. exact (wma_snapshot_roundtrip pmax_ge cf n v xs). Qed.
+Theorem C13_trima_snapshot_any_state {pw : PW} {N : Num} (pmax_ge : 2 <= pmax) (cf : codec F) n (v : F) xs : 1 <= n <= pmax - 1 ->
+  exists s0, trima_new n v = Ok s0 /\
+    let s := steps trima_next s0 xs in pdec (trima_pcodec pmax_ge cf) (penc (trima_pcodec pmax_ge cf) s) = Some s.
+Proof. exact (trima_snapshot_roundtrip pmax_ge cf n v xs). Qed.
